@@ -55,8 +55,41 @@ one_read(uint32_t addr, uint32_t n)
             first_unmapped = (long)(addr + k);
             break;
         }
+    /* every fifth read meets a device that cannot deliver one word of the window (where the window has a word in
+     * a readable callback-backed area): a window with a hole is still refused for the hole, first unmapped
+     * address and all; a fully mapped one comes back with the device's error */
+    static unsigned nreads;
+    int dev_fail = 0;
+    if (++nreads % 5u == 0)
+        for (uint32_t k = 0; k < n && !dev_fail; k++) {
+            int ai = rt_area_of(d, addr + (n - 1 - k));
+            if (ai >= 0 && d->area[ai].custom && !d->area[ai].window && !d->area[ai].noread && d->area[ai].readable) {
+                rt_cb_rfail_area = ai;
+                rt_cb_rfail_word = addr + (n - 1 - k) - d->area[ai].base;
+                rt_cb_rfail_code = (nreads / 5u) & 1u ? REG_ACCESS_IO_ERROR : REG_ACCESS_FAILURE;
+                rt_cb_rfail_hits = 0;
+                dev_fail = 1;
+            }
+        }
     const unsigned wcalls_before = inst.cb_writes;
     RegisterAccess a = register_block_read(&inst.t, addr, n, buf);
+    rt_cb_rfail_area = -1;
+    if (dev_fail) {
+        char dctx[200];
+        snprintf(dctx, sizeof dctx, "table{%.100s} read(addr=%u,n=%u) with a device that fails on one word", rt_describe(d), addr, n);
+        VH_COUNT("read: a device word that cannot be read");
+        if (first_unmapped >= 0) {
+            if (a.code != REG_ACCESS_NOENTRY || a.address != (uint32_t)first_unmapped)
+                vh_fail("unmapped-read", "window=unmapped device=failing", "%s: code=%d address=%u, first unmapped address %ld", dctx, a.code,
+                        a.address, first_unmapped);
+        } else if (a.code != (RegisterAccessCode)rt_cb_rfail_code) {
+            vh_fail("device-error-not-returned", "window=mapped device=failing", "%s: code=%d, the device said %d (%u refusals)", dctx, a.code,
+                    rt_cb_rfail_code, rt_cb_rfail_hits);
+        }
+        if (!rt_compare_storage(&inst, "read-changes-table", "window=any", dctx))
+            rt_sync_model_from_storage(&inst);
+        return;
+    }
     char ctx[220];
     snprintf(ctx, sizeof ctx, "table{%.100s} read(addr=%u,n=%u)", rt_describe(d), addr, n);
     if (first_unmapped < 0) {
